@@ -6,7 +6,8 @@
 (*   obs {cur, reg, live, got, bad}     cur: the connection the harness holds to be the owner;       *)
 (*       reg: the connection registered in Broker.clients ("none", "?" if unknown), live: the         *)
 (*       session map holds an open session and it is the registered connection's; got: the filters    *)
-(*       on whose topic a message published over HTTP was received by cur; bad: the harness' own       *)
+(*       on whose topic a message published over HTTP was received by cur; stopics: the filters the    *)
+(*       owner's session object holds; bad: the harness' own                                            *)
 (*       list of discrepancies                                                                          *)
 (*   kick {c, reg, eof}                 after an admin delete was processed: is c still registered,    *)
 (*       and did the broker close c's connection when c next sent a packet                              *)
@@ -31,7 +32,7 @@ TAdmin   == IsEvent("admin") /\ Frozen /\ KAdminDelete
 
 ToSet(s) == {s[i] : i \in 1..Len(s)}
 ObsOK == /\ E.cur = kcur
-         /\ kcur # "none" => (E.reg = kcur /\ E.live /\ ToSet(E.got) = ksubs)
+         /\ kcur # "none" => (E.reg = kcur /\ E.live /\ ToSet(E.got) = ksubs /\ ToSet(E.stopics) = ksubs)
 TObs == /\ IsEvent("obs") /\ UNCHANGED svars
         /\ E.cur = kcur
         /\ (Len(E.bad) = 0) <=> ObsOK
